@@ -512,7 +512,7 @@ func init() {
 				o.Obs("sys_requests", 1)
 				ctx := fmt.Sprintf("%s max_tokens=%d client %q (headers %v) request #%d of that client", c.Strategy, c.Max, c1.attr, c1.hdr, model[c1.attr]+1)
 				switch {
-				case rs.Status == 429 && strings.Contains(string(rs.Body), "Rate limit exceeded"):
+				case rs.Status == 429:
 					total429++
 					o.Obs("sys_429", 1)
 					if arrived != 0 {
